@@ -1,13 +1,60 @@
-"""C19 native oracle: see replay/instr.py."""
+"""C19 native oracle: see replay/instr.py; plus the documented markers (posts, deferrals, recalls, scribbles)."""
+import random
+
 from replay.common import main
 from replay import instr
 
 
 def scenarios(seed, tier, failed):
-    return instr.scenarios(seed, tier, failed, live=('C19' == 'C21'))
+    rnd = random.Random(seed + 19)
+    yield {'kind': 'markers', 'ops': [['defer', 'X'], ['defer', 'Y'], ['recall'], ['post_lifo', 'Z'], ['scribble', 'note'],
+                                      ['recall'], ['recall'], ['post_fifo', 'X']], 'instrumented': True}
+    yield {'kind': 'markers', 'ops': [['defer', 'X'], ['recall'], ['post_fifo', 'Y']], 'instrumented': False}
+    for _ in range(40 if tier == 'quick' else 2000):
+        ops = []
+        for _ in range(rnd.randint(2, 9)):
+            op = rnd.choice(['defer', 'defer', 'recall', 'post_fifo', 'post_lifo', 'scribble'])
+            ops.append([op] if op == 'recall' else [op, rnd.choice(['X', 'Y', 'Z'])])
+        yield {'kind': 'markers', 'ops': ops, 'instrumented': rnd.random() < 0.8}
+    for k, sc in enumerate(instr.scenarios(seed, tier, failed, live=False)):
+        if k % 3 == 0:
+            sc['hook_queries'] = True
+        yield sc
+
+
+def run_markers(sc):
+    from miros.hsm import HsmWithQueues
+    from miros.event import Event
+    chart = HsmWithQueues(instrumented=sc['instrumented'])
+    chart.instrumented = sc['instrumented']
+    deferred, expect = [], []
+    for op in sc['ops']:
+        before = list(chart.rtc.spy)
+        if op[0] == 'recall':
+            chart.recall()
+            want = []
+            if deferred:
+                nm = deferred.pop(0)
+                want = ['RECALL:' + nm, 'POST_FIFO:' + nm]
+        elif op[0] == 'scribble':
+            chart.scribble(op[1])
+            want = [op[1]]
+        else:
+            getattr(chart, op[0])(Event(signal='C19_' + op[1]))
+            want = [{'post_fifo': 'POST_FIFO:', 'post_lifo': 'POST_LIFO:', 'defer': 'POST_DEFERRED:'}[op[0]] + 'C19_' + op[1]]
+            if op[0] == 'defer':
+                deferred.append('C19_' + op[1])
+        if not sc['instrumented']:
+            want = []
+        got = list(chart.rtc.spy)[len(before):]
+        if got != want:
+            return False, 'after %s the step log gained %s, documented markers are %s' % (op, got, want), 'marker[%s]' % op[0]
+    return True, ''
 
 
 def run(sc):
+    if sc.get('kind') == 'markers':
+        return run_markers(sc)
     return instr.run_c19(sc)
 
 
